@@ -6,10 +6,13 @@ import anchors
 import vlib
 
 RULE = ("a case is one schedule of harness-controlled events (subscribe_i with option tuple, cancel_i, upstream "
-        "accept/reject/ack/init failure, per-id next/complete/error, foreign-id and junk-id frames, drop, bad frame, idle "
+        "accept/reject/ack/init failure, per-id next/complete/error, foreign-id and junk-id frames, any frame of either "
+        "sub-protocol's alphabet with/without id and payload, cancel of the dialler between ack and subscribe, drop, bad frame, idle "
         "tick), each followed by quiescence; distinct by the hash of its line; non-trivial when, per the model's state, a "
         "subscribe or a cancel is issued while a dial/init for the SAME connection key is in progress (two subscriptions "
-        "overlap on one key inside the coalescing window); SSE cases count when two streams interleave.")
+        "overlap on one key inside the coalescing window), when a frame of the widened alphabet is read on a connection that "
+        "carries more than one subscription, when a subscriber cancels from inside its terminal callback, or when the dialler is "
+        "cancelled between connection_ack and its subscribe frame; SSE cases count when two streams interleave.")
 
 # The three findings of the first build -- getOrDial-waiter-inherits-dialler-ctx-error,
 # closeConn-after-emptiness-check-not-atomic, subscribe-write-with-cancelled-ctx-closes-shared-socket -- are repaired in
@@ -66,6 +69,73 @@ def anchors_c18():
         and bool(re.search(r"err := ctx\.Err\(\)\s*if err == nil \{\s*err = c\.protocol\.Subscribe\(subscribeCtx, c\.conn, id, req\)",
                            sub_c)) \
         and len(re.findall(r"c\.protocol\.Subscribe\(", sub_c)) == 1
+    # subscribe registers the handler BEFORE it looks at the subscriber's ctx; every failure after the registration leaves
+    # through removeSub (which starts the close flow of a connection left without subscriptions)
+    i_reg, i_ctx = sub_c.find("c.subs[id] = handler"), sub_c.find("ctx.Err()")
+    reg_first = 0 <= i_reg < i_ctx and sub_c.count("ctx.Err()") == 1 and "ctx.Done()" not in sub_c \
+        and bool(re.search(r"if err != nil \{\s*c\.log\.Error\([^;]*?\)\s*c\.removeSub\(id\)\s*return nil, err\s*\}", sub_c, re.S)) \
+        and len(re.findall(r"return nil, ", sub_c)) == 3
+    # dispatch: lookup of msg.ID under subsMu, that ONE handler is called with IntoClientMessage(), the id is removed iff the
+    # WIRE type is complete / error, nothing else is touched; the read loop dispatches data / error / complete, answers ping,
+    # and a read error shuts the connection down
+    disp = anchors.func_body(conn, "dispatch")
+    rl = anchors.func_body(conn, "readLoop")
+    dispatch_local = bool(re.fullmatch(
+        r"\{\s*c\.subsMu\.RLock\(\)\s*handler, exists := c\.subs\[msg\.ID\]\s*c\.subsMu\.RUnlock\(\)\s*if !exists \{\s*return\s*\}\s*"
+        r"handler\(msg\.IntoClientMessage\(\)\)\s*if msg\.Type == protocol\.MessageComplete \|\| msg\.Type == protocol\.MessageError \{\s*"
+        r"c\.removeSub\(msg\.ID\)\s*\}\s*\}", disp)) \
+        and bool(re.search(r"case protocol\.MessageData, protocol\.MessageError, protocol\.MessageComplete:\s*c\.dispatch\(msg\)\s*\}", rl)) \
+        and bool(re.search(r"msg, err := c\.protocol\.Read\(c\.ctx, c\.conn\)\s*if err != nil \{.*?c\.shutdown\(fmt\.Errorf\(\"%w: read: %w\", "
+                           r"common\.ErrConnectionClosed, err\)\)\s*return\s*\}", rl, re.S)) \
+        and rl.count("c.shutdown(") == 2 and rl.count("c.dispatch(") == 1
+    psrc = anchors._read("v2/pkg/engine/datasource/graphql_datasource/subscriptionclient/protocol/protocol.go")
+    icm = anchors.func_body(psrc, "IntoClientMessage")
+    into_client = bool(re.fullmatch(
+        r"\{\s*switch m\.Type \{\s*case MessageData:\s*return &common\.Message\{Type: common\.MessageTypeData, Payload: m\.Payload\}\s*"
+        r"case MessageError:\s*if m\.Payload != nil \{\s*return &common\.Message\{Type: common\.MessageTypeError, Payload: m\.Payload\}\s*\}\s*"
+        r"return &common\.Message\{Type: common\.MessageTypeConnectionError, Err: m\.Err\}\s*"
+        r"case MessageComplete:\s*return &common\.Message\{Type: common\.MessageTypeComplete\}\s*"
+        r"default:\s*return &common\.Message\{Type: common\.MessageTypeUnknown\}\s*\}\s*\}", icm))
+    msrc = anchors._read("v2/pkg/engine/datasource/graphql_datasource/subscriptionclient/common/message.go")
+    into_client = into_client and bool(re.search(
+        r"return t == MessageTypeError \|\| t == MessageTypeComplete \|\| t == MessageTypeConnectionError", anchors.func_body(msrc, "IsTerminal")))
+
+    def decode_table(rel, recv):
+        src = anchors._read(rel)
+        m = re.search(r"func \(p \*%s\) decode\(raw incomingMessage\) \(\*WireMessage, error\) " % recv, src)
+        if not m:
+            raise anchors.AnchorError("decode of %s not found" % recv)
+        body = anchors.func_body(src[m.start():], "decode")
+        consts = dict(re.findall(r"(\w+)\s*=\s*\"([^\"]*)\"", src))
+        sw = body[body.index("switch raw.Type"):]
+        arms = re.split(r"\n\tcase ", sw)[1:]
+        table = []
+        for a in arms:
+            name = a.split(":", 1)[0].strip()
+            rest = a.split(":", 1)[1].split("\n\tdefault:")[0]
+            t = re.findall(r"msg\.Type = (\w+)", rest)
+            if name not in consts or len(t) != 1:
+                raise anchors.AnchorError("decode arm %s of %s" % (name, recv))
+            table.append((consts[name], t[0]))
+        # shape of the arms the model distinguishes: a data payload that does not unmarshal is an error; an error payload
+        # is kept raw; the default arm is an error; connection_error sets Err and no Payload
+        shape = bool(re.search(r"default:\s*return nil, fmt\.Errorf\(\"unknown message type: %s\", raw\.Type\)", sw)) \
+            and len(re.findall(r"if raw\.Payload != nil \{\s*var resp common\.ExecutionResult\s*if err := json\.Unmarshal\(raw\.Payload, &resp\); "
+                               r"err != nil \{\s*return nil, ", sw)) == 1 \
+            and len(re.findall(r"msg\.Type = MessageError\s*if raw\.Payload != nil \{\s*msg\.Payload = &common\.ExecutionResult\{Errors: raw\.Payload\}",
+                               sw)) == 1 \
+            and "ID: raw.ID" in body
+        if recv == "graphqlWS":
+            shape = shape and bool(re.search(r"case gwsTypeConnectionError:\s*msg\.Type = MessageError\s*var errPayload map\[string\]any\s*"
+                                             r"if raw\.Payload != nil \{\s*_ = json\.Unmarshal\(raw\.Payload, &errPayload\)\s*\}\s*"
+                                             r"msg\.Err = fmt\.Errorf\(", sw))
+        if not shape:
+            table.append(("<shape>", "changed"))
+        return table
+
+    tws = decode_table("v2/pkg/engine/datasource/graphql_datasource/subscriptionclient/protocol/graphql_transport_ws.go", "graphqlTransportWS")
+    gws = decode_table("v2/pkg/engine/datasource/graphql_datasource/subscriptionclient/protocol/graphql_ws.go", "graphqlWS")
+    pairs = lambda t: anchors.coq_list("(%s, %s)" % (anchors.coq_bytes(a.encode()), anchors.coq_bytes(b_.encode())) for a, b_ in t)
     b = lambda x: "true" if x else "false"
     txt = "(* GENERATED by tools/props/c18.py from /repo -- do not edit *)\n"
     txt += "From Gv Require Import lib.Bytes.\nOpen Scope N_scope.\n"
@@ -77,6 +147,11 @@ def anchors_c18():
     txt += "Definition anchor_subscribe_restarts_on_closed : bool := %s.\n" % b(restart_on_closed)
     txt += "Definition anchor_close_decided_under_lock : bool := %s.\n" % b(close_under_lock)
     txt += "Definition anchor_subscribe_write_conn_ctx : bool := %s.\n" % b(write_conn_ctx)
+    txt += "Definition anchor_subscribe_registers_before_ctx_test : bool := %s.\n" % b(reg_first)
+    txt += "Definition anchor_dispatch_by_id_local : bool := %s.\n" % b(dispatch_local)
+    txt += "Definition anchor_into_client_message : bool := %s.\n" % b(into_client)
+    txt += "Definition anchor_decode_tws : list (bytes * bytes) := %s.\n" % pairs(tws)
+    txt += "Definition anchor_decode_gws : list (bytes * bytes) := %s.\n" % pairs(gws)
     return anchors.write_if_changed(os.path.join(vlib.COQ, "gen", "Anchors_C18.v"), txt)
 
 
@@ -100,7 +175,12 @@ def run(chk, only_corpus=None):
         "dialler leaves the dialing table before close(done); removeConn deletes by key; Subscribe starts over on "
         "ErrConnectionClosed; closeIfEmpty tests emptiness and CASes closed inside one subsMu section and is the only close "
         "path of removeSub / the idle timer, subscribe tests closed under the same lock; the subscribe frame is written under "
-        "c.ctx and the caller's ctx is read only before the write",
+        "c.ctx and the caller's ctx is read only before the write; subscribe registers before it reads the caller's ctx and leaves through "
+        "removeSub; dispatch = lookup of msg.ID under subsMu, that one handler called with IntoClientMessage(), removeSub iff the WIRE "
+        "type is complete/error, nothing else (full-body match), readLoop dispatches data/error/complete and shuts down on a read error; "
+        "IntoClientMessage and IsTerminal (full-body match); the two decode switches as (type string, wire type) tables + arm shapes",
+        "Spec.spec_class (what an upstream frame means: per-subscription / nobody's / protocol violation) is a hand-written reading of "
+        "the two protocol documents and of the decoders; id-less frames are classified as nobody's because the code drops them",
         "A-hash: connKey's 64-bit hash is modelled as the tuple itself (no collisions)",
         "A-xid: xid.New() never repeats / is not guessable (wire ids are a counter; the upstream names only ids it was sent "
         "or ids nobody holds)",
@@ -111,6 +191,10 @@ def run(chk, only_corpus=None):
         "write ctx (it closes the socket) is the reason every frame is written under the connection's ctx -- it is no longer "
         "reachable from a subscriber's ctx and appears only in the historical ModelV0; ping loop only as APingTimeout (not "
         "driven by the harness)",
+        "harness: the dialler is cancelled between init and subscribe from the transport's own \"connected\" debug line "
+        "(Config.Logger; recognised by message + field count) -- with a waiter behind that dial the order of the dialler's removeSub "
+        "and the waiter's subscribe is a race the harness cannot fix: proved (all interleavings), not generated; a connection error "
+        "made by the frame conversion is told from a connection going down by Message.Err (nil / ErrConnectionError / json error)",
         "harness: in-process net/http + coder/websocket upstream with gated accept/ack/frames, quiescence by log silence "
         "(6 ms, ping barrier after frames), idle period 250 ms fired by a 420 ms tick; the window between removeSub's / the idle "
         "timer's emptiness test and the close cannot be held open by any harness event (no source hook): it is covered by the "
@@ -179,6 +263,14 @@ def run(chk, only_corpus=None):
                 "redials_after_aborted_dial_or_closed_conn": sum(
                     1 for x in c if re.search(r"\(w \((?:cancel|complete|error|next|tick)[^()]*\)[^w]*\(sdial ", x.split("(minus")[0])),
                 "with_fault": sum(1 for x in c if re.search(r"\((reject|initfail|drop|bad) ", x.split("(wins")[0])),
+                "with_alphabet_frame": sum(1 for x in c if "(frame " in x.split("(wins")[0]),
+                "frames_by_type(next,data,error,complete,connection_error,ping,pong,ka,ack,other,garbage)": [
+                    sum(len(re.findall(r"\(up \d+ \d %d " % t, x.split("(minus")[0])) for x in c) for t in range(11)],
+                "frames_without_id": sum(len(re.findall(r"\(up \d+ \d \d+ -1 ", x.split("(minus")[0])) for x in c),
+                "frames_legacy_protocol": sum(len(re.findall(r"\(up \d+ 1 ", x.split("(minus")[0])) for x in c),
+                "conversion_made_connection_errors_delivered": sum(len(re.findall(r"\(dlv \d+ x ", x.split("(minus")[0])) for x in c),
+                "dialler_cancelled_between_ack_and_subscribe": sum(1 for x in c if re.search(r"\(w \(ack \d+\)[^w]*\(cancel ", x.split("(minus")[0])),
+                "sse_alphabet_events": sum(x.count("(sframe ") for x in c if x.startswith("(c18 sse")) // 2,
                 "two_keys": sum(1 for x in c if len(set(re.findall(r"\(\d+ (\d+ \d+ \d+ \d+)\)", x.split("(sched")[0]))) > 1),
                 "three_subscribers": sum(1 for x in c if "(sub 2 " in x.split("(wins")[0]),
                 "events_per_schedule_max": max((x.split("(wins")[0].count("(") - 3) for x in c) if c else 0,
